@@ -268,12 +268,29 @@ def q(cur: Any, sql: str) -> Any:
         return {"error": exc_record(e), "sql": sql}
 
 
-def observe_and_check(world: World, m: MetaModel, hz: dict[str, bool], step_kind: str) -> dict[str, Any] | None:
-    """The observer pass: every metadata surface from every scope against the model."""
+def observe_and_check(world: World, m: MetaModel, hz: dict[str, bool], step_kind: str, observers: dict[str, Any] | None = None) -> dict[str, Any] | None:
+    """The observer pass: every metadata surface from every scope against the model. The pass is made twice:
+    by long-lived observer sessions (one per database, kept for the whole run, like a user session that stays
+    open - per-connection state such as caches shows up here) and by fresh ones."""
+    if observers is not None:
+        v = _observe(world, m, hz, step_kind, observers)
+        if v is not None:
+            v["signature"] = v["signature"] + "~long-lived-observer" if _observe(world, m, hz, step_kind, None) is None else v["signature"]
+            return v
+        return None
+    return _observe(world, m, hz, step_kind, None)
+
+
+def _observe(world: World, m: MetaModel, hz: dict[str, bool], step_kind: str, observers: dict[str, Any] | None) -> dict[str, Any] | None:
     fs = world.fs
     with world.sim.quiet():
         for db in sorted(m.dbs):
-            cur = fs.connect(database=db).cursor()
+            if observers is not None:
+                if db not in observers:
+                    observers[db] = fs.connect(database=db)
+                cur = observers[db].cursor()
+            else:
+                cur = fs.connect(database=db).cursor()
             dbt = sorted(t for t in m.tables if t[0] == db)
             dbv = sorted(v for v in m.views if v[0] == db)
             # --- information_schema.tables
@@ -414,6 +431,7 @@ def run(case: dict[str, Any]) -> dict[str, Any]:
     kinds: list[str] = []
     violation = None
     n = 0
+    observers: dict[str, Any] = {}
     try:
         for op in case["ops"]:
             if op["k"] == "exec" and op["s"] not in world.conns:
@@ -428,6 +446,7 @@ def run(case: dict[str, Any]) -> dict[str, Any]:
             kinds.append(kind)
             if op["k"] == "restart":
                 probes["restart"] = probes.get("restart", 0) + 1
+                observers.clear()
                 continue
             if not out.get("ok"):
                 violation = v_(f"ddl-raises/{kind}/{out.get('exc')}", "a generated DDL statement failed", {"op": {k: op.get(k) for k in ("s", "sql", "database", "schema")}, "outcome": out})
@@ -439,7 +458,7 @@ def run(case: dict[str, Any]) -> dict[str, Any]:
                 probes["two_databases"] = probes.get("two_databases", 0) + 1
             if op["k"] == "connect" and len(world.conns) < (2 if cfg["two"] else 1):
                 continue  # after a restart wait until every session is back before observing
-            violation = observe_and_check(world, m, cfg["hazards"], kind)
+            violation = observe_and_check(world, m, cfg["hazards"], kind, observers)
             probes["observer_passes"] = probes.get("observer_passes", 0) + 1
             if violation:
                 sig = violation["signature"]
